@@ -27,6 +27,8 @@
 #include <string>
 #include <thread>
 #include <vector>
+#include <type_traits>
+#include <functional>
 #include "common/explore.hpp"
 
 #define VMPI_SHIM 1
@@ -35,6 +37,19 @@ namespace boost { namespace mpi {
 
 template<class Op, class T> struct is_commutative : mpl::false_ {};
 template<class T> struct is_mpi_datatype : mpl::false_ {};
+
+// the function objects of <boost/mpi/operations.hpp>; as in Boost.MPI they (and std::plus / std::multiplies) are declared
+// commutative for built-in arithmetic types
+template<class T> struct maximum { typedef T first_argument_type; typedef T second_argument_type; typedef T result_type; const T &operator()(const T &x, const T &y) const { return x < y ? y : x; } };
+template<class T> struct minimum { typedef T first_argument_type; typedef T second_argument_type; typedef T result_type; const T &operator()(const T &x, const T &y) const { return x < y ? x : y; } };
+template<class T> struct bitwise_and { T operator()(const T &x, const T &y) const { return x & y; } };
+template<class T> struct bitwise_or { T operator()(const T &x, const T &y) const { return x | y; } };
+template<class T> struct bitwise_xor { T operator()(const T &x, const T &y) const { return x ^ y; } };
+template<class T> struct logical_xor { bool operator()(const T &x, const T &y) const { return (x || y) && !(x && y); } };
+#define VMPI_COMMUTATIVE(OP) template<class T> struct is_commutative<OP<T>, T> : mpl::bool_<std::is_arithmetic<T>::value> {};
+VMPI_COMMUTATIVE(maximum) VMPI_COMMUTATIVE(minimum) VMPI_COMMUTATIVE(bitwise_and) VMPI_COMMUTATIVE(bitwise_or) VMPI_COMMUTATIVE(bitwise_xor) VMPI_COMMUTATIVE(logical_xor)
+VMPI_COMMUTATIVE(std::plus) VMPI_COMMUTATIVE(std::multiplies) VMPI_COMMUTATIVE(std::logical_and) VMPI_COMMUTATIVE(std::logical_or)
+#undef VMPI_COMMUTATIVE
 
 namespace threading { enum level { single = 0, funneled = 1, serialized = 2, multiple = 3 }; }
 
@@ -318,5 +333,21 @@ void scatter(const communicator &comm, const std::vector<T> &in_values, T &out_v
 }
 template<class T>
 void scatter(const communicator &comm, T &out_value, int root) { scatter(comm, std::vector<T>(), out_value, root); }
+
+// Collectives that parmcb does not use today, expressed through the modelled ones (same values, same blocking behaviour:
+// every rank takes part, nobody leaves before everybody has arrived), so that a change which starts using them still builds
+// and runs on the model: all_reduce = reduce to rank 0 + broadcast; gather = rank-ordered reduce of one-element vectors;
+// all_gather = gather + broadcast.
+template<class T, class Op>
+void all_reduce(const communicator &comm, const T &in_value, T &out_value, Op op) { T tmp = in_value; reduce(comm, in_value, tmp, op, 0); broadcast(comm, tmp, 0); out_value = tmp; }
+template<class T, class Op>
+T all_reduce(const communicator &comm, const T &in_value, Op op) { T out; all_reduce(comm, in_value, out, op); return out; }
+namespace vmpi { template<class T> struct Concat { std::vector<T> operator()(const std::vector<T> &a, const std::vector<T> &b) const { std::vector<T> r(a); r.insert(r.end(), b.begin(), b.end()); return r; } }; }
+template<class T>
+void gather(const communicator &comm, const T &in_value, std::vector<T> &out_values, int root) { std::vector<T> mine(1, in_value), all; reduce(comm, mine, all, vmpi::Concat<T>(), root); if (comm.rank() == root) out_values = all; }
+template<class T>
+void gather(const communicator &comm, const T &in_value, int root) { std::vector<T> dummy; gather(comm, in_value, dummy, root); }
+template<class T>
+void all_gather(const communicator &comm, const T &in_value, std::vector<T> &out_values) { std::vector<T> all; gather(comm, in_value, all, 0); broadcast(comm, all, 0); out_values = all; }
 
 }} // namespace boost::mpi
